@@ -351,7 +351,9 @@ fn print_intent(spec: &CmdSpec, il: &IntentLine) -> Option<Printed> {
             chars[..n].iter().collect()
         }
         Word::ShortCluster(picks) => {
-            let flags: Vec<char> = named.iter().filter(|a| !a.takes_values() && !matches!(a.action, Action::Help | Action::HelpShort | Action::HelpLong | Action::Version)).filter_map(|a| a.short).collect();
+            // (the primary short and the visible short aliases: a cluster may spell a flag either way, and
+            // what is offered has to extend the cluster as it was typed)
+            let flags: Vec<char> = named.iter().filter(|a| !a.takes_values() && !matches!(a.action, Action::Help | Action::HelpShort | Action::HelpLong | Action::Version)).flat_map(|a| a.short.into_iter().chain(if a.short.is_some() { a.visible_short_aliases.clone() } else { Vec::new() })).collect();
             if flags.is_empty() || picks.is_empty() {
                 return None;
             }
@@ -579,7 +581,7 @@ impl Engine for CompSim {
         Meta {
             engine: "compsim",
             level: "exploration",
-            rule: "a scenario is a command tree (depth <= 3; globals, aliases, hidden items, value hints incl. path hints, possible values, caller-supplied completer callbacks returning empty/duplicate/hidden-only/very long lists) plus a history of 1-8 operations on ONE long-lived &mut Command: engine::complete on token soup (any bytes, any cursor index incl. out of range) or on a line printed from an intent (level reached and cursor word known), the five EnvCompleter::write_complete adapters under a generated adapter environment (_CLAP_COMPLETE_INDEX absent/non-numeric/negative/huge/out of range, _CLAP_IFS absent/empty/multi-byte, COMP_TYPE, SPACE) through a fault-injecting sink, write_registration through the sink, CompleteEnv::try_complete with COMPLETE unset/0/empty/unknown, and ordinary parses in between. Path hints read a scratch directory tree (dot-files, spaces, newlines, colons, backslashes, non-UTF-8 names, dangling symlinks, a symlink loop, an empty directory) or a missing / file / absent current_dir. Non-trivial = >= 2 operations or a sink/env fault fired, with >= 1 comparison; distinct = distinct scenario hash. Added during the build phase: no_binary_name trees, look-alike and shadowed spellings, words with non-UTF-8 tails / ending in a value-taking short option / being a whole spelling, delimited value lists, empty and non-UTF-8 option values before the cursor, levels addressed through the generated help subcommand, external subcommand candidates",
+            rule: "a scenario is a command tree (depth <= 3; globals, aliases, hidden items, value hints incl. path hints, possible values, caller-supplied completer callbacks returning empty/duplicate/hidden-only/very long lists) plus a history of 1-8 operations on ONE long-lived &mut Command: engine::complete on token soup (any bytes, any cursor index incl. out of range) or on a line printed from an intent (level reached and cursor word known), the five EnvCompleter::write_complete adapters under a generated adapter environment (_CLAP_COMPLETE_INDEX absent/non-numeric/negative/huge/out of range, _CLAP_IFS absent/empty/multi-byte, COMP_TYPE, SPACE) through a fault-injecting sink, write_registration through the sink, CompleteEnv::try_complete with COMPLETE unset/0/empty/unknown, and ordinary parses in between. Path hints read a scratch directory tree (dot-files, spaces, newlines, colons, backslashes, non-UTF-8 names, dangling symlinks, a symlink loop, an empty directory) or a missing / file / absent current_dir. Non-trivial = >= 2 operations or a sink/env fault fired, with >= 1 comparison; distinct = distinct scenario hash. Added during the build phase: no_binary_name trees, look-alike and shadowed spellings, words with non-UTF-8 tails / ending in a value-taking short option / being a whole spelling, delimited value lists, empty and non-UTF-8 option values before the cursor, levels addressed through the generated help subcommand, external subcommand candidates, visible short aliases inside the cluster under the cursor",
             real_components: &["clap_complete::engine::complete (shadow parser, candidate assembly)", "clap_complete::engine::custom (path completion, callbacks)", "clap_complete::env::{Bash,Elvish,Fish,Powershell,Zsh} adapters", "CompleteEnv::try_complete (paths that do not write to stdout)", "clap parser (acceptance of offered candidates)", "the real process environment and a real scratch directory"],
             stub_components: &["FaultyWriter sink", "completer callbacks supplied by the scenario", "scratch directory tree created per run"],
             workload_only_clauses: &["the candidate-validity and representation clauses are evaluated on lines printed from an intent so that the level reached is known without re-implementing the engine"],
